@@ -503,6 +503,12 @@ Definition ex_oracle : oracle :=
 Lemma ex_oracle_ok : oracle_ok ex_oracle 3.
 Proof. intros [|[|t]]; simpl; lia. Qed.
 
+(* n < 0: [0, n) is empty; after the repair (2ff431c) the result is the empty list, whatever the oracle answers
+   (before it, out[:n] panicked: Panic PIndex) *)
+Example rsample_negative_n_example :
+  rsample ex_oracle [] (-1) 3 = Ok [] /\ rsample (fun _ => DStop) [] (-5) 0 = Ok [] /\ rsample ex_oracle [] (-1) 1 = Ok [].
+Proof. vm_compute. repeat split; reflexivity. Qed.
+
 Example rsample_example :
   rsample ex_oracle [(0, 1)] 10 3 = Ok [1; 4; 7]
   /\ rsample ex_oracle [] 2 3 = Ok [0; 1]
